@@ -50,7 +50,7 @@ func (p c13) per(c *run.Ctx) (int, int) {
 	}
 	return 8, 40
 }
-func (p c13) NumCases(c *run.Ctx) int { u, o := p.per(c); return u * o }
+func (p c13) NumCases(c *run.Ctx) int  { u, o := p.per(c); return u * o }
 func (p c13) BatchSize(c *run.Ctx) int { return 10 }
 
 func (p c13) Gen(c *run.Ctx, idx int) (json.RawMessage, error) {
@@ -64,10 +64,20 @@ func (p c13) Gen(c *run.Ctx, idx int) (json.RawMessage, error) {
 	prof := gen.DefaultOpProfile()
 	prof.PNodeRoot = 0.25
 	prof.Pool = cu.spec.Data.Pool
+	if idx%4 == 2 {
+		// several root steps answering the same key: node(id:) with member fragments owned by different services
+		prof.ForceNodeRoot, prof.PNodeSecond = true, 0.8
+	}
 	if r.Intn(6) == 0 && cu.mono.Mutation != nil {
 		prof.Kind = ast.Mutation
 	}
-	op := genValidOp(r, cu.mono, prof)
+	var op *gen.Op
+	if idx%8 == 6 {
+		op = genNodeSpanProbe(r, cu, cu.spec.Data.IDStyle, cu.spec.Data.Pool)
+	}
+	if op == nil {
+		op = genValidOp(r, cu.mono, prof)
+	}
 	if op == nil {
 		return nil, nil
 	}
